@@ -379,4 +379,61 @@ def run(facts, tier):
     c16.guard_rules(facts, res, "R13-6", "R13-6c")
     import staleidx
     staleidx.rule(facts, res, "R13-4", lambda f: f["crate"] in ("xml_info", "xml_dom"), floor=7)
+    # the effect of append_child / insert_before on a node that is already in the tree includes its place in document order:
+    # the order table drops the old key first (C14-4)
+    from props import c14
+    c14.c14_4(facts, res, "R13-11")
+    r13_12(facts, res)
     return res
+
+
+def r13_12(facts, res, rule="R13-12"):
+    """remove_child of a merged text node removes all of its pieces (text, CDATA sections and references alike): the loop over
+    `text.data` after the first piece deletes every piece - no filter on the kind of piece, no other skipping."""
+    st = res.rule(rule, instances=0)
+    for f in sorted(facts.fns.values(), key=lambda x: x["path"]):
+        if f["crate"] != "xml_dom" or "body" not in f or not f["path"].endswith("NodeMut>::remove_child"):
+            continue
+        for n in walk(f["body"]):
+            if n.get("k") != "Match" or n.get("src") != "ForLoop":
+                continue
+            sc = n.get("scrut", {})
+            it = sc["args"][0] if sc.get("k") == "Call" and sc.get("args") else None
+            if it is None:
+                continue
+            # resolve an iterator kept in a local (`let rest = text.data.iter().skip(1); for piece in rest.filter(..)`)
+            chain, r, hops = [], it, 0
+            while isinstance(r, dict) and hops < 12:
+                hops += 1
+                if r.get("k") == "MethodCall":
+                    chain.append(r)
+                    r = r.get("recv")
+                elif r.get("k") == "Path" and r.get("res") == "Local":
+                    init = None
+                    for l in walk(f["body"]):
+                        if l.get("s") == "Let" and l.get("pat", {}).get("p") == "Bind" and l["pat"].get("lid") == r.get("lid") and "init" in l:
+                            init = l["init"]
+                    if init is None:
+                        break
+                    r = init
+                elif r.get("k") in ("AddrOf",):
+                    r = r["a"]
+                else:
+                    break
+            over_pieces = isinstance(r, dict) and r.get("k") == "Field" and r.get("name") == "data" and "ExpandedText" in str(r.get("basety", ""))
+            if not over_pieces:
+                continue
+            st["instances"] += 1
+            names_ = [c["m"] for c in chain]
+            skips = [c for c in chain if c["m"] == "skip"]
+            ok = set(names_) <= {"iter", "skip", "cloned", "copied", "into_iter"} and len(skips) <= 1 and \
+                all(c["args"] and c["args"][0].get("k") == "Lit" and int(c["args"][0].get("v", 9)) == 1 for c in skips) and \
+                any(m.get("k") == "MethodCall" and m.get("m") == "delete" for m in walk(n["arms"]))
+            res.oblige(1, ok)
+            if not ok:
+                res.add(Finding(rule, f["path"],
+                                "%s: the pieces of a merged text node are walked with %s: a piece that is skipped (a CDATA section, a "
+                                "reference) stays in the element after its text node was removed" % (f["path"], list(reversed(names_))),
+                                f["file"], n.get("ln"), {}))
+    if st["instances"] < 1:
+        raise BrokenCheck("%s: no loop over the pieces of a merged text node found in a remove_child" % rule)
